@@ -348,6 +348,16 @@ func init() {
 		c.MsgIndex = IfaceVal{T: types.Typ[types.Int64], V: a[2]}
 		return ModelVal{Kind: "ctx", Obj: &c}
 	})
+	// the module parameters as they are in the parameter store, not as the keeper's getters report them
+	regFn("vh/vf.Params", func(e *Exec, fn *ssa.Function, a []Value) Value {
+		env := a[0].(ModelVal).Obj.(*CtxModel).Env
+		st := e.zero(fn.Signature.Results().At(0).Type()).(*StructVal)
+		names := []string{"MaxRequestTimeout", "MinDepositMultiple", "MinDeposit", "ServiceFeeTax", "SlashFraction", "ComplaintRetrospect", "ArbitrationTimeLimit", "TxSizeLimit", "BaseDenom"}
+		for i, n := range names {
+			st.Fields[i] = copyValue(e.param(env, n))
+		}
+		return st
+	})
 	regFn("vh/vf.Store", func(e *Exec, fn *ssa.Function, a []Value) Value {
 		c := a[0].(ModelVal).Obj.(*CtxModel)
 		return IfaceVal{T: fn.Signature.Results().At(0).Type(), V: ModelVal{Kind: "store", Obj: c.Env.Store}}
